@@ -3,12 +3,12 @@ package main
 // Engine G (DESIGN §3.G): include-resolution typestate (AST + go/cfg).
 
 import (
-	"golang.org/x/tools/go/ssa"
 	"fmt"
 	"go/ast"
 	"go/constant"
 	"go/token"
 	"go/types"
+	"golang.org/x/tools/go/ssa"
 	"strings"
 
 	"golang.org/x/tools/go/cfg"
